@@ -3,6 +3,11 @@ deterministic scheduler (sim/sched.py; its threading shim is put into nfc.llcp.l
 a real peer controller with sockets bound by name, and a link thread that carries the frames separately, batched,
 in reverse order, or never (service discovery shut down as terminate() does).  Every schedule is one trace for
 Trace_LlcpResolve.tla (spec/LlcpResolve.tla): events are logged inside the controller lock in the scheduler's order.
+
+The transaction ids are a conserved resource: every event carries what the real ServiceDiscovery object shows at that
+moment (len(tids), the ids missing from tids, the ids in the sdreq queue), so that TLC judges PoolConserved after EVERY
+real step of every schedule; and LONG sessions perform more lookups of distinct uncached names over one link than there
+are transaction ids (300 and 2 x 160 against 256), so that every id is drawn again.
 """
 import random
 import sim.sched as S
@@ -19,10 +24,27 @@ def _name(tag, n):
 # names whose SDREQ TLVs (3 + length) sit around what is left of an SNL PDU at MIU 128
 REAL.update(L70a=_name(b"a", 70), L70b=_name(b"b", 70), S16=_name(b"s", 16), L60a=_name(b"a", 60), L60b=_name(b"b", 60),
             L60c=_name(b"c", 60), L120=_name(b"a", 120), S3a=b"s3a", S3b=b"s3b")
+# the long sessions: u1 .. u320, 15 octets each
+REAL.update({"u%d" % i: b"urn:nfc:sn:u%03d" % i for i in range(1, 321)})
 ABST = {v: k for k, v in REAL.items()}
 # what the peer binds, in this order: n1 -> 16, n2 -> 17, wk -> 4, L70a -> 18, L70b -> 19, S16 -> 20, L60a -> 21, L120 -> 22
 BOUND = ("n1", "n2", "wk", "L70a", "L70b", "S16", "L60a", "L120")
-RNONE, RKEYERR, ROTHER = -2, -3, -4
+LONGBOUND = ("u5", "u130", "u257", "u300")                # long sessions only: -> 23, 24, 25, 26 (Trace_LlcpResolve.tla LongPeer)
+RNONE, RKEYERR, ROTHER, RSTARVED = -2, -3, -4, -5
+
+# more lookups of distinct uncached names over ONE link than there are transaction ids (256)
+LONG = [
+    (dict(r1=["u%d" % i for i in range(1, 301)]), "separate"),
+    (dict(r1=["u%d" % i for i in range(1, 161)], r2=["u%d" % i for i in range(161, 321)]), "batched"),
+]
+NTIDS = 256
+
+
+def observe(A):
+    """What the real ServiceDiscovery object shows: the size of the id pool, the ids that are out, the queued ids."""
+    sd = A.sap[1]
+    tids = list(sd.tids)
+    return dict(free=len(tids), busy=sorted(set(range(NTIDS)) - set(tids)), q=[int(t) for (t, _) in sd.sdreq])
 
 # resolver programs: thread -> names resolved one after the other
 PROGRAMS = [
@@ -45,7 +67,7 @@ SIZED = range(7, 13)
 POLICIES = ("separate", "batched", "reverse", "never", "some-then-never", "hold")      # hold: nothing is collected before every resolver waits
 
 
-def run_case(prog, policy, chooser, seed, max_steps=4000, miu=128):
+def run_case(prog, policy, chooser, seed, max_steps=4000, miu=128, bound=BOUND):
     """One schedule.  Returns (trace events, outcome, picks)."""
     import nfc.llcp
     import nfc.llcp.llc as llc_mod
@@ -63,7 +85,7 @@ def run_case(prog, policy, chooser, seed, max_steps=4000, miu=128):
             for x in (A, B):
                 x.cfg["send-miu"], x.cfg["llcp-dpc"] = miu, 0
             keep = []
-            for n in BOUND:
+            for n in bound:
                 s = nfc.llcp.Socket(B, nfc.llcp.DATA_LINK_CONNECTION)
                 s.bind(REAL[n])
                 keep.append(s)
@@ -74,15 +96,17 @@ def run_case(prog, policy, chooser, seed, max_steps=4000, miu=128):
                 A = box["A"]
                 for n in names:
                     with A.lock:                                   # re-entered by resolve(); wait() releases it fully
-                        ev.append(dict(a="Call", t=t, n=n))
+                        ev.append(dict(a="Call", t=t, n=n, **observe(A)))
                         try:
                             v = A.resolve(REAL[n])
                             ret = RNONE if v is None else int(v)
                         except KeyError:
                             ret = RKEYERR
+                        except IndexError:                          # random.choice() of an empty pool
+                            ret = RSTARVED
                         except Exception:                           # noqa - any raise is a finding
                             ret = ROTHER
-                        ev.append(dict(a="Return", t=t, ret=ret))
+                        ev.append(dict(a="Return", t=t, ret=ret, **observe(A)))
                     sch.yield_point()
             return body
 
@@ -99,12 +123,13 @@ def run_case(prog, policy, chooser, seed, max_steps=4000, miu=128):
                 parked0 = all(t.state in (S.WAITING, S.DONE) for t in res)
                 with A.lock:
                     # a terminated controller collects nothing
+                    seen = observe(A)                               # before the critical section of this event
                     f = None if ended or (policy == "hold" and not parked0) else A.collect()
                     if f is not None:
                         pdus = list(f) if f.name == "AGF" else [f]
                         for p in pdus:
                             if p.name == "SNL" and p.sdreq:
-                                ev.append(dict(a="Collect", names=[ABST[bytes(nm)] for (_, nm) in p.sdreq]))
+                                ev.append(dict(a="Collect", names=[ABST[bytes(nm)] for (_, nm) in p.sdreq], **seen))
                         to_b.append(pdu_mod.encode(f))
                         did = True
                 parked = all(t.state in (S.WAITING, S.DONE) for t in res)
@@ -122,7 +147,7 @@ def run_case(prog, policy, chooser, seed, max_steps=4000, miu=128):
                 stop_now = (policy == "never" and parked) or (policy == "some-then-never" and delivered >= 1 and parked)
                 if stop_now and not ended:
                     with A.lock:
-                        ev.append(dict(a="LinkEnd"))
+                        ev.append(dict(a="LinkEnd", **observe(A)))
                         A.sap[1].shutdown()
                     ended = did = True
                 elif to_a and not ended and policy != "never" and (policy != "reverse" or parked):
@@ -132,8 +157,8 @@ def run_case(prog, policy, chooser, seed, max_steps=4000, miu=128):
                         q = pdu_mod.decode(data)
                         if q.name == "SNL" and q.sdres:
                             sent = A.sap[1].sent
-                            ev.append(dict(a="Deliver", ans=[[ABST[bytes(sent[tid])], int(sap)] for (tid, sap) in q.sdres
-                                                             if tid in sent]))
+                            ev.append(dict(a="Deliver", ans=[[ABST[bytes(sent[tid])], int(sap), int(tid)] for (tid, sap) in q.sdres
+                                                             if tid in sent], **observe(A)))
                         A.dispatch(q)
                     delivered += 1
                     did = True
@@ -144,7 +169,8 @@ def run_case(prog, policy, chooser, seed, max_steps=4000, miu=128):
         sch.spawn(link, "link")
         outcome = sch.run()
         if outcome != "done" or any(t.state != S.DONE or t.exc not in (None, "abort") for t in sch.threads):
-            ev.append(dict(a="Deadlock", outcome=outcome))
+            ev.append(dict(a="Deadlock", outcome=outcome, **observe(box["A"])))
+        ev.append(dict(a="End", **observe(box["A"])))
         return ev, outcome, list(getattr(chooser, "picks", []))
     finally:
         LP.uninstall()
@@ -170,6 +196,8 @@ def make_chooser(kind, arg, seed):
 
 
 def cases(quick, seed):
+    for li in range(len(LONG)):
+        yield dict(long=li, policy=LONG[li][1], kind="fair", arg=None, miu=128)
     for pi, prog in enumerate(PROGRAMS):
         if pi in SIZED:
             # the queue order is what matters here: every order the scheduler can produce, few frame policies
@@ -191,6 +219,10 @@ def cases(quick, seed):
 def trace_of(case, seed):
     ch = make_chooser(case["kind"], case["arg"], seed)
     miu = case.get("miu", 128)
+    if "long" in case:
+        ev, outcome, picks = run_case(LONG[case["long"]][0], case["policy"], ch, seed, miu=miu, bound=BOUND + LONGBOUND,
+                                      max_steps=200000)
+        return dict(id="res-long%d-%s-%d-fair" % (case["long"], case["policy"], miu), const=dict(miu=miu, long=1), ev=ev), outcome
     ev, outcome, picks = run_case(PROGRAMS[case["pi"]], case["policy"], ch, seed, miu=miu)
     arg = case["arg"]
     tag = "fair" if case["kind"] == "fair" else ("p%d%s" % (arg[0], arg[1]) if case["kind"] == "pre" else "r%d" % arg)
@@ -198,11 +230,24 @@ def trace_of(case, seed):
 
 
 # ------------------------------------------------------------------------------------------------
-RES_WITNESSES = ["W_ForeignWake", "W_Skipped", "W_TwoWaiting", "W_SameName", "W_NoneReturn", "W_Absent", "W_CachedCall"]
+# witnesses and the exhaustive configuration in which each is looked for (q3: three resolvers, one call each, three ids;
+# the two-resolver configuration: two calls each, three ids for four lookups)
+RES_WITNESSES = ["W_ForeignWake", "W_Skipped", "W_TwoWaiting", "W_SameName", "W_NoneReturn", "W_Absent"]
+POOL_WITNESSES = ["W_PoolEmpty", "W_TidReused", "W_CachedCall"]          # W_Refilled: pool of two ids (the refill configuration)
 
 
 def classify(tr, line, act, why):
     ev = tr["ev"][line - 1]
+    if act == "Return" and ev.get("ret") == RSTARVED:
+        return "resolve:IndexError-raised:no-transaction-id-left-in-the-pool"
+    if why and why[0] == "inv" and "PoolConserved" in why[1]:
+        if act == "Deliver":
+            return "resolve:transaction-id-of-an-answered-lookup-not-returned-to-the-pool"
+        if act == "Call":
+            return "resolve:transaction-id-pool-not-conserved-by-the-lookup(id-not-taken/taken-twice)"
+        return "resolve:transaction-id-pool-not-conserved@%s" % act
+    if why and why[0] == "inv" and "NeverStarves" in why[1]:
+        return "resolve:transaction-id-pool-not-full-with-every-lookup-answered@%s" % act
     if act == "Return" and ev.get("ret") == RKEYERR:
         return "resolve:KeyError-raised-in-a-thread-woken-by-the-answer-for-another-name"
     if act == "Return" and ev.get("ret") == ROTHER:
@@ -219,28 +264,54 @@ def classify(tr, line, act, why):
 def stage(ck, tier, seed, tlc):
     """Exhaustive LlcpResolve + every schedule of the grid validated by Trace_LlcpResolve."""
     import json
+    import time
     quick = tier == "quick"
-    r = tlc.run("MC_LlcpResolve.tla", "MC_LlcpResolve%s.cfg" % ("" if quick else "_thorough"), "C17/resolve",
-                workers=6, timeout=300 if quick else 1500)
-    if not r.ok:
-        ck.violation("spec:LlcpResolve:" + ",".join(r.violated or ["deadlock"]),
-                     "TLC found a violation in the resolver model: %s" % (r.error_trace or "")[:2000])
-    ck.cover(states=r.distinct, transitions=r.generated)
-    r3 = tlc.run("MC_LlcpResolve.tla", "MC_LlcpResolve_q3.cfg", "C17/resolve3", workers=6, timeout=300)      # three resolvers, one call each
-    if not r3.ok:
-        ck.violation("spec:LlcpResolve(3):" + ",".join(r3.violated or ["deadlock"]),
-                     "TLC found a violation in the resolver model: %s" % (r3.error_trace or "")[:2000])
-    ck.cover(states=r3.distinct, transitions=r3.generated)
-    pop = tlc.run("MC_LlcpResolve.tla", "MC_LlcpResolve_pophead.cfg", "C17/resolve_pop", workers=2, timeout=300)
-    if "Recorded" not in pop.violated:
-        raise tlc.TLCError("the pop-the-head variant of the resolver model does not violate Recorded: vacuous")
-    wrong = tlc.run("MC_LlcpResolve.tla", "MC_LlcpResolve_if.cfg", "C17/resolve_if", workers=2, timeout=300)
-    if "ResolveReturns" not in wrong.violated:
-        raise tlc.TLCError("the `if ...: wait()` variant of the resolver model does not violate ResolveReturns: vacuous")
+    t_0, walls = time.time(), {}
+    # the exhaustive runs go on in the background while the schedules are produced
+    import concurrent.futures as cf
+    ex = cf.ThreadPoolExecutor(max_workers=10)
+    M = "MC_LlcpResolve.tla"
     wit = RES_WITNESSES[:2] if quick else RES_WITNESSES
-    hit, _ = tlc.witnesses("MC_LlcpResolve.tla", "MC_LlcpResolve_q3.cfg", "C17/wres", wit, workers=2)
-    if set(wit) - hit:
-        raise tlc.TLCError("vacuous resolver model: witnesses not reached: %s" % sorted(set(wit) - hit))
+    pwit = POOL_WITNESSES[:2] if quick else POOL_WITNESSES
+    fut = dict(
+        r=ex.submit(tlc.run, M, "MC_LlcpResolve%s.cfg" % ("" if quick else "_thorough"), "C17/resolve", workers=6,
+                    timeout=300 if quick else 2400),
+        r3=ex.submit(tlc.run, M, "MC_LlcpResolve_q3.cfg", "C17/resolve3", workers=4, timeout=600),      # three resolvers, one call each
+        pop=ex.submit(tlc.run, M, "MC_LlcpResolve_pophead.cfg", "C17/resolve_pop", workers=2, timeout=300),
+        wrong=ex.submit(tlc.run, M, "MC_LlcpResolve_if.cfg", "C17/resolve_if", workers=2, timeout=300),
+        # the transaction id pool: the model whose answered lookups keep their ids must break the conservation invariant, and
+        # in the code's model the pool runs empty and is full again later (temporal witness: the property must be violated)
+        leak=ex.submit(tlc.run, M, "MC_LlcpResolve_leak.cfg", "C17/resolve_leak", workers=2, timeout=300),
+        refill=ex.submit(tlc.run, M, "MC_LlcpResolve_refill.cfg", "C17/resolve_refill", workers=2, timeout=300),
+        wit=ex.submit(tlc.witnesses, M, "MC_LlcpResolve_q3.cfg", "C17/wres", wit, workers=2, timeout=600),
+        # the two-resolver configuration (two calls each): the witnesses that need a second call or an id drawn again
+        pwit=ex.submit(tlc.witnesses, M, "MC_LlcpResolve.cfg", "C17/wpool", pwit, workers=2, timeout=600),
+        rwit=ex.submit(tlc.witnesses, M, "MC_LlcpResolve_refill.cfg", "C17/wrefill", ["W_Refilled"], workers=2, timeout=600))
+
+    def model_checking():
+        r, r3 = fut["r"].result(), fut["r3"].result()
+        if not r.ok:
+            ck.violation("spec:LlcpResolve:" + ",".join(r.violated or ["deadlock"]),
+                         "TLC found a violation in the resolver model: %s" % (r.error_trace or "")[:2000])
+        ck.cover(states=r.distinct, transitions=r.generated)
+        if not r3.ok:
+            ck.violation("spec:LlcpResolve(3):" + ",".join(r3.violated or ["deadlock"]),
+                         "TLC found a violation in the resolver model: %s" % (r3.error_trace or "")[:2000])
+        ck.cover(states=r3.distinct, transitions=r3.generated)
+        if "Recorded" not in fut["pop"].result().violated:
+            raise tlc.TLCError("the pop-the-head variant of the resolver model does not violate Recorded: vacuous")
+        if "ResolveReturns" not in fut["wrong"].result().violated:
+            raise tlc.TLCError("the `if ...: wait()` variant of the resolver model does not violate ResolveReturns: vacuous")
+        if "PoolConserved" not in fut["leak"].result().violated:
+            raise tlc.TLCError("the keep-the-id variant of the resolver model does not violate PoolConserved: vacuous")
+        refill = fut["refill"].result()
+        if "<temporal>" not in refill.violated and "Temporal property NeverRefilled was violated" not in refill.out:
+            raise tlc.TLCError("vacuous resolver model: the id pool never runs empty and full again (NeverRefilled holds)")
+        hit = fut["wit"].result()[0] | fut["pwit"].result()[0] | fut["rwit"].result()[0]
+        want = set(wit) | set(pwit) | {"W_Refilled"}
+        if want - hit:
+            raise tlc.TLCError("vacuous resolver model: witnesses not reached: %s" % sorted(want - hit))
+        ck.cover(resolver_witnesses=sorted(hit) + ["NeverRefilled violated"])
     traces, meta, seen, nsched, outcomes = [], {}, set(), 0, {}
     for case in cases(quick, seed):
         tr, outcome = trace_of(case, seed)
@@ -252,8 +323,9 @@ def stage(ck, tier, seed, tlc):
         seen.add(key)
         traces.append(tr)
         meta[tr["id"]] = case
+    walls["schedules"] = round(time.time() - t_0, 1)
     # binding self-test: a wrong address and a dropped Deliver must be rejected
-    src = next(t for t in traces if sum(1 for e in t["ev"] if e["a"] == "Deliver") >= 2)
+    src = next(t for t in traces if sum(1 for e in t["ev"] if e["a"] == "Deliver") >= 2 and not t["const"].get("long"))
     t1 = json.loads(json.dumps(src))
     for e in t1["ev"]:
         if e["a"] == "Return" and e["ret"] > 0:
@@ -266,16 +338,39 @@ def stage(ck, tier, seed, tlc):
             del t2["ev"][k]
             break
     t2["id"] = src["id"] + "-dropped"
-    verdicts, st = tlc.validate_traces("Trace_LlcpResolve.tla", "Trace_LlcpResolve.cfg", "C17/res",
-                                       [t for t in traces if t["const"]["miu"] == 128] + [t1, t2], shards=8, timeout=900)
+    # a third corrupted trace: the real object shows one more id out than there are lookups pending (a leaked id)
+    t3 = json.loads(json.dumps(src))
+    for k, e in enumerate(t3["ev"]):
+        if k and t3["ev"][k - 1]["a"] == "Deliver":
+            for f in t3["ev"][k:]:
+                f["busy"] = sorted(set(f["busy"]) | {min(set(range(NTIDS)) - set(f["busy"]))})
+                f["free"] -= 1
+            break
+    t3["id"] = src["id"] + "-leaked"
+    lng = [t for t in traces if t["const"].get("long")]
     big = [t for t in traces if t["const"]["miu"] == 248]
-    if big:
-        v2, st2 = tlc.validate_traces("Trace_LlcpResolve.tla", "Trace_LlcpResolve_248.cfg", "C17/res248", big, shards=4, timeout=900)
+    lookups = {t["id"]: sum(1 for e in t["ev"] if e["a"] == "Collect" for _ in e["names"]) for t in lng}
+    T = "Trace_LlcpResolve.tla"
+    vf = [ex.submit(tlc.validate_traces, T, "Trace_LlcpResolve.cfg", "C17/res",
+                    [t for t in traces if t["const"]["miu"] == 128 and not t["const"].get("long")] + [t1, t2, t3], shards=8, timeout=900),
+          ex.submit(tlc.validate_traces, T, "Trace_LlcpResolve_long.cfg", "C17/reslong", lng, shards=2, timeout=900),
+          ex.submit(tlc.validate_traces, T, "Trace_LlcpResolve_248.cfg", "C17/res248", big, shards=4, timeout=900)]
+    verdicts, st = {}, dict(states=0)
+    for f in vf:
+        v2, st2 = f.result()
         verdicts.update(v2)
         st["states"] += st2["states"]
+    model_checking()
+    ex.shutdown()
+    if any(verdicts[i][0] == "ACCEPT" and n <= NTIDS for i, n in lookups.items()):
+        raise tlc.TLCError("binding vacuous: a long session made only %s uncached lookups" % lookups)
+    if verdicts[t3["id"]][0] == "ACCEPT" or "PoolConserved" not in json.dumps(verdicts[t3["id"]]):
+        raise tlc.TLCError("binding vacuous: resolver trace with a leaked transaction id: %s" % (verdicts[t3["id"]],))
     for t in (t1, t2):
         if verdicts[t["id"]][0] == "ACCEPT":
             raise tlc.TLCError("binding vacuous: corrupted resolver trace %s accepted" % t["id"])
+    walls["validated"] = round(time.time() - t_0, 1)
+    print("resolver stage walls (cumulative):", walls)
     acc = 0
     for tr in traces:
         v = verdicts[tr["id"]]
@@ -287,7 +382,8 @@ def stage(ck, tier, seed, tlc):
             tr["id"], line, act, json.dumps(why)[:300], json.dumps(tr["ev"][:line])[:900]),
             replay=dict(kind="resolve", case=meta[tr["id"]], seed=seed))
     ck.cover(resolver_schedules=nsched, resolver_traces_distinct=len(traces), resolver_traces_accepted=acc,
-             resolver_outcomes=outcomes, traces_validated_against_impl=acc, trace_states=st["states"])
+             resolver_outcomes=outcomes, traces_validated_against_impl=acc, trace_states=st["states"],
+             resolver_long_sessions_uncached_lookups=lookups)
     ck.sample(dict(resolver_trace=traces[min(7, len(traces) - 1)]["id"], events=traces[min(7, len(traces) - 1)]["ev"][:10]))
 
 
@@ -296,6 +392,8 @@ def replay(rep, tlc):
     r = rep["replay"]
     tr, outcome = trace_of(r["case"], r["seed"])
     cfg = "Trace_LlcpResolve_248.cfg" if tr["const"]["miu"] == 248 else "Trace_LlcpResolve.cfg"
+    if tr["const"].get("long"):
+        cfg = "Trace_LlcpResolve_long.cfg"
     verdicts, st = tlc.validate_traces("Trace_LlcpResolve.tla", cfg, "C17_replay", [tr], shards=1)
     v = verdicts[tr["id"]]
     print("replay verdict:", v, "outcome:", outcome)
